@@ -1,7 +1,8 @@
 /* C08 - constant time by self-composition on instrumented clang IR.
  * The function under test (ll_ prefix, CT hooks live) is run twice on the SAME objects with identical public
- * parameters and two independent symbolic assignments of every secret; phase 0 records the (site, branch condition)
- * and (site, object, offset[, length]) events, phase 1 must reproduce them one by one.
+ * parameters: phase 0 on a fixed reference assignment of every secret, recording the (site, branch condition) and
+ * (site, object, offset[, length]) events; phase 1 on an ARBITRARY assignment, which must reproduce them one by one
+ * (see ct.h: branches are then forced to the reference direction, so a leaking branch is reported once and the run goes on).
  * Parameters: CASE selects the function, others are its public parameters (see props/C08.py). */
 #include "vh.h"
 #define CT_MODE
@@ -9,7 +10,8 @@
 unsigned ct_n; int ct_phase; uint64_t ct_val[CT_MAX];
 
 #define SEC 1300
-uint8_t sym_sec[2][SEC];                        /* two independent assignments of all secrets */
+uint8_t sym_sec[SEC];                           /* the arbitrary assignment of all secrets (phase 1) */
+static uint8_t ref_sec[SEC];                    /* the reference assignment (phase 0) */
 static uint8_t ctx[1024] __attribute__((aligned(32)));   /* key schedule / CTR context / handle image, one object for both phases */
 static uint8_t obuf[320], ibuf[320], kbuf[64], tbuf[64 + 320];
 typedef struct { const void *vtable; void *ctx; size_t psize; } handle_t;
@@ -44,7 +46,7 @@ void PARF(uint8_t *, uint8_t *,
 
 static void secrets(int p)
 {
-    const uint8_t *s = sym_sec[p];
+    const uint8_t *s = p ? sym_sec : ref_sec;
     memcpy(ctx, s, 800);                                      /* the whole prior context / schedule is secret ... */
     memcpy(kbuf, s + 800, 64); memcpy(tbuf, s + 864, 64); memcpy(ibuf, s + 928, 320);
     /* ... except the public fields: round count and keystream offset */
@@ -61,7 +63,8 @@ void harness(void)
 {
     unsigned n0 = 0;
     HARNESS_BEGIN();
-    SYM_U8A(sym_sec[0]); SYM_U8A(sym_sec[1]);
+    SYM_U8A(sym_sec);
+    for (unsigned i = 0; i < SEC; i++) ref_sec[i] = (uint8_t)(i * 73u + 5u);
     for (ct_phase = 0; ct_phase < 2; ct_phase++) {
         ct_n = 0;
         secrets(ct_phase);
